@@ -12,7 +12,7 @@ from ..consteval import try_fold
 from ..dataflow import defs
 from ..lattice import bv_family, ir_family, reaching_classes
 from ..model import call_name, dotted, own_nodes, unparse
-from ..pathcond import conds_truth, path_info
+from ..pathcond import assigned_alternatives, conds_truth, path_info
 from ..paths import enumerate_paths
 from ..profiles import controlling_test, reject_profile
 from ._serial import BASE, PYTYPES, SER, VAL, is_validation_error
@@ -510,6 +510,35 @@ def run(pm, ctx):
         for c in vcalls), 'make_stone_friendly validates when asked', msf.loc,
         msg='make_stone_friendly does not validate under its validate flag',
         key='C08-R7|%s|flag' % msf.qualname)
+    # ---------------- R9: a child union accepts every tag of its ancestors
+    ctx.rule('C08-R9', 'a union class inherits the tag table of its parent whenever the parent has '
+                       'one for the caller: the chain is not cut by a parent without own members')
+    gu = pm.func(PYTYPES + '.PythonTypesBackend._generate_union_class_reflection_attributes')
+    piu = path_info(gu.node)
+    ups = [c for c in own_nodes(gu.node) if isinstance(c, ast.Call) and call_name(c) == 'emit' and
+           c.args and '.update(' in unparse(c.args[0])]
+    conds = [sorted((unparse(e), p) for e, p in piu.at(c)) for c in ups]
+    ctx.check('C08-R9', conds == [[('caller_in_parent', True)]],
+              'Child._tagmap.update(Parent._tagmap) is emitted exactly under caller_in_parent',
+              gu.loc, msg='the parent tag table is merged under %s: a union three levels deep '
+                          'loses the tags of its grandparent when the middle union adds none'
+                          % conds, key='C08-R9|%s|update' % gu.qualname)
+    cip = [leaf for leaf, _ in assigned_alternatives(gu.node, 'caller_in_parent')]
+    okc = False
+    if len(cip) == 1:
+        from ..pathcond import truth_table
+
+        def kk(e):
+            return {'data_type.parent_type': 'parent', 'is_public': 'public',
+                    'omitted_caller in parent_omitted_callers': 'known'}.get(unparse(e),
+                                                                           ('other', unparse(e)))
+        keys, tab = truth_table(cip[0], kk)
+        okc = keys == ['known', 'parent', 'public'] and all(
+            bool(v) == (env[1] and (env[2] or env[0])) for env, v in tab.items())
+    ctx.check('C08-R9', okc, 'caller_in_parent = there is a parent and the caller is public or '
+              'known to an ancestor', gu.loc,
+              msg='caller_in_parent is computed as %s' % [unparse(c) for c in cip],
+              key='C08-R9|%s|caller_in_parent' % gu.qualname)
     ctx.import_rules(pm, 'C06', {'C06-R3'}, 'C08-R8',
                      'library calls on untrusted scalars convert every library exception to '
                      'ValidationError (shared with C06-R3)')
